@@ -974,7 +974,73 @@ func genLevel(repo, out string) {
 	if err2 != nil {
 		d2 = fmt.Sprintf("/-- UNTRANSLATABLE: %s -/\ndef %s : Unit := ()\n", strings.ReplaceAll(err2.Error(), "-/", "- /"), spec2.leanName)
 	}
-	sb.WriteString(d2 + "\nend GenLevel\n")
+	sb.WriteString(d2 + "\n")
+	// compactLN: the order of its steps (which tables are read, in which order they are merged, when the output gets its
+	// name, when it is written, when the inputs disappear from the index and from the directory)
+	{
+		f3 := findFunc(p, "levelManager", "compactLN")
+		sp := transSpec{
+			leanName: "compactLN",
+			binders:  "(needLevel : Bool) (lnTable : Nat) (ln1 : List Nat) (newIdx : Nat) (writeFails : Bool) (ev : List (String × Nat))",
+			retType:  "Option (List Nat × List (String × Nat))",
+			exprMap: map[string]string{"len(lm.levels)-1 < n+1": "needLevel", "lm.levels[n].Front()": "lnTable", "lm.overlapLN(n+1, start, end)": "ln1",
+				"tab.Value.(tableHandle)": "tab", "dataBlockLN1.Entries": "dataBlockLN1", "dataBlockLN.Entries": "dataBlockLN", "err != nil": "err"},
+			state: []string{"dataBlockList", "ev"}, stateLn: []string{"dataBlockList", "ev"}, evVar: "ev",
+			stateTy: []string{"List Nat", "List (String × Nat)"}, join: true,
+			zero: map[string]string{"[][]types.Entry": "([] : List Nat)"},
+			effects: map[string]string{
+				"lm.levels = append(lm.levels, list.New())":                                                               "new level|0",
+				"lm.fetch(n+1, th.levelIdx, th.dataBlockIndex.DataBlock)":                                                 "fetch LN+1|th",
+				"lm.fetch(n, lnTable.Value.(tableHandle).levelIdx, lnTable.Value.(tableHandle).dataBlockIndex.DataBlock)": "fetch LN|lnTable",
+				"kway.MergeVersions(dataBlockList...)":                                                                    "MergeVersions|dataBlockList.length",
+				"lm.discardStaleEntries(mergedEntries)":                                                                   "discardStaleEntries|0",
+				"filter.Build(discarded)":                                                                                 "filter.Build|0",
+				"table.Build(discarded, lm.dataBlockSize, n+1)":                                                           "table.Build|0",
+				"tableHandle{levelIdx: lm.maxLevelIdx(n+1) + 1, filter: *bf, dataBlockIndex: dataBlockIndex}":             "name := maxLevelIdx(LN+1)+1|newIdx",
+				"lm.levels[n+1].PushBack(th)":                                                                             "PushBack LN+1|th",
+				"lm.levels[n].Remove(lnTable)":                                                                            "Remove handle LN|lnTable",
+				"lm.levels[n+1].Remove(e)":                                                                                "Remove handle LN+1|e",
+				"lm.writeTable(lm.fileName(n+1, th.levelIdx), tableBytes)":                                                "writeTable LN+1|th",
+				"os.Remove(lm.fileName(n, lnTable.Value.(tableHandle).levelIdx))":                                         "os.Remove LN|lnTable",
+				"os.Remove(lm.fileName(n+1, e.Value.(tableHandle).levelIdx))":                                             "os.Remove LN+1|e",
+			},
+			binds: map[string][][2]string{
+				"boundary(lnTable)": {},
+				"lm.fetch(n+1, th.levelIdx, th.dataBlockIndex.DataBlock)":                                                 {{"dataBlockLN1", "th"}},
+				"lm.fetch(n, lnTable.Value.(tableHandle).levelIdx, lnTable.Value.(tableHandle).dataBlockIndex.DataBlock)": {{"dataBlockLN", "lnTable"}},
+				"kway.MergeVersions(dataBlockList...)":                                                                    {{"mergedEntries", "()"}},
+				"lm.discardStaleEntries(mergedEntries)":                                                                   {{"discarded", "()"}},
+				"filter.Build(discarded)":                                                                                 {{"bf", "()"}},
+				"table.Build(discarded, lm.dataBlockSize, n+1)":                                                           {{"dataBlockIndex", "()"}, {"tableBytes", "()"}},
+				"tableHandle{levelIdx: lm.maxLevelIdx(n+1) + 1, filter: *bf, dataBlockIndex: dataBlockIndex}":             {{"th", "newIdx"}},
+				"lm.writeTable(lm.fileName(n+1, th.levelIdx), tableBytes)":                                                {{"err", "writeFails"}},
+				"os.Remove(lm.fileName(n, lnTable.Value.(tableHandle).levelIdx))":                                         {{"err", "false"}},
+				"os.Remove(lm.fileName(n+1, e.Value.(tableHandle).levelIdx))":                                             {{"err", "false"}},
+			},
+			wraps: map[string]func(string) string{
+				"lm.logger.Panicf(\"failed to write sstable: %v\", err)":      func(string) string { return "none" },
+				"lm.logger.Panicf(\"failed to delete old sstable: %v\", err)": func(string) string { return "none" },
+			},
+			skipStmt: func(st ast.Stmt) bool { return strings.HasPrefix(goStr(st), "defer utils.Elapsed(") },
+			ret:      func(vals []string, st []string) string { return "some (dataBlockList, ev)" },
+			fallOff:  func(st []string) string { return "some (dataBlockList, ev)" },
+			panicVal: "none",
+			skipCall: func(c *ast.CallExpr) bool { return strings.HasPrefix(goStr(c.Fun), "vhook.") },
+		}
+		d3 := ""
+		e3 := fmt.Errorf("levelManager.compactLN not found")
+		if f3 != nil {
+			t := &translator{spec: sp}
+			tr := t.stmts(f3.Body.List, func() string { return sp.fallOff(sp.stateLn) }, "", "")
+			e3 = t.err
+			d3 = fmt.Sprintf("def %s %s : %s :=\n  let dataBlockList : List Nat := []\n  %s\n", sp.leanName, sp.binders, sp.retType, tr)
+		}
+		if e3 != nil {
+			d3 = fmt.Sprintf("/-- UNTRANSLATABLE: %s -/\ndef compactLN : Unit := ()\n", strings.ReplaceAll(e3.Error(), "-/", "- /"))
+		}
+		sb.WriteString(d3 + "\n")
+	}
+	sb.WriteString("end GenLevel\n")
 	if err := os.WriteFile(out, []byte(sb.String()), 0644); err != nil {
 		fatal(err)
 	}
